@@ -444,6 +444,9 @@ package prunner
 //@ pure retPeriod(r *PipelineRunner, j *PipelineJob) int = r.defs.Pipelines[j.Pipeline].RetentionPeriod
 //@ pure retCount(r *PipelineRunner, j *PipelineJob) int = r.defs.Pipelines[j.Pipeline].RetentionCount
 //@ ghost $passDom array Bool
+//@ ghost $logsRemoveFailed array Bool
+// every real UUID is recovered from its string form (uuid.FromString(id.String()) == id)
+//@ pure idRoundTrips(id uuid.UUID) bool = uf1(2, uf1(1, id)) == id
 //@ pure jobFinished(j *PipelineJob) bool = !jobWaiting(j) && (j.Completed || j.Canceled)
 //@ pure jobsUntouched() bool = same(PipelineJob.Start) && same(PipelineJob.Canceled) && same(PipelineJob.Completed) && same(PipelineJob.End) && same(PipelineJob.LastError) && same(PipelineJob.sched) && same(PipelineJob.startTimer) && same(PipelineJob.Pipeline) && same(PipelineJob.ID)
 //@ pure liveKept(r *PipelineRunner) bool = forall id uuid.UUID :: old((id in r.jobsByID) && defined(r, r.jobsByID[id].Pipeline) && (jobWaiting(r.jobsByID[id]) || jobRunning(r.jobsByID[id]))) ==> (id in r.jobsByID) && r.jobsByID[id] == old(r.jobsByID[id])
@@ -461,8 +464,9 @@ package prunner
 //@   ensures  [C11.tokens] $wgTokens == old($wgTokens)
 //@   at call Save#1: assert [C11.saveTracked] $wgTokens == old($wgTokens) + 1
 //@   ensures  [C12.keepLive] liveKept(r)
+//@   ensures  [C12.logsKept] forall id uuid.UUID :: (id in r.jobsByID) && idRoundTrips(id) ==> $logsRemoved[uf1(1, id)] == old($logsRemoved[uf1(1, id)])
 //@   ensures  [C12.waitLists] sameExcept("map(map[string][]*PipelineJob)", r.jobsByPipeline)
-//@   modifies map(map[uuid.UUID]*PipelineJob)@[r.jobsByID], map(map[string][]*PipelineJob)@[r.jobsByPipeline], mem(*PipelineJob), $clock, $logsRemoved, $savedData, $wgTokens
+//@   modifies map(map[uuid.UUID]*PipelineJob)@[r.jobsByID], map(map[string][]*PipelineJob)@[r.jobsByPipeline], mem(*PipelineJob), $clock, $logsRemoved, $logsRemoveFailed, $savedData, $wgTokens
 //@   loop 1 invariant [ri] RI(r) && r.defs == old(r.defs) && r.jobsByPipeline == old(r.jobsByPipeline) && r.jobsByID == old(r.jobsByID) && jobsUntouched() && liveKept(r) && sameExcept("map(map[string][]*PipelineJob)", r.jobsByPipeline)
 //@   loop 2 invariant [ri] RI(r) && r.defs == old(r.defs) && r.jobsByPipeline == old(r.jobsByPipeline) && r.jobsByID == old(r.jobsByID) && jobsUntouched() && liveKept(r) && sameExcept("map(map[string][]*PipelineJob)", r.jobsByPipeline)
 //@   loop 1 invariant [bases] forall p string :: base(r.jobsByPipeline[p]) == old(base(r.jobsByPipeline[p])) && off(r.jobsByPipeline[p]) == old(off(r.jobsByPipeline[p]))
@@ -470,6 +474,9 @@ package prunner
 //@   loop 2 invariant [C12.count] forall k :: 0 <= k && k <= $i && jobFinished(sortedJobsInPipeline[k]) && defined(r, sortedJobsInPipeline[k].Pipeline) && r.defs.Pipelines[sortedJobsInPipeline[k].Pipeline].RetentionCount > 0 && k >= r.defs.Pipelines[sortedJobsInPipeline[k].Pipeline].RetentionCount ==> !(sortedJobsInPipeline[k].ID in r.jobsByID)
 //@   at after (pipelineJobBy).Sort#1: ghost $passDom := domain(r.jobsByID)
 //@   loop 2 invariant [C12.pending] forall k :: $i < k && k < len(sortedJobsInPipeline) && $passDom[sortedJobsInPipeline[k].ID] ==> (sortedJobsInPipeline[k].ID in r.jobsByID)
+//@   loop 2 invariant [C12.logsGone] forall k :: 0 <= k && k <= $i && $passDom[sortedJobsInPipeline[k].ID] && !(sortedJobsInPipeline[k].ID in r.jobsByID) ==> $logsRemoved[uf1(1, sortedJobsInPipeline[k].ID)] || $logsRemoveFailed[uf1(1, sortedJobsInPipeline[k].ID)]
+//@   loop 2 invariant [C12.logsKept] forall id uuid.UUID :: (id in r.jobsByID) && idRoundTrips(id) ==> $logsRemoved[uf1(1, id)] == old($logsRemoved[uf1(1, id)])
+//@   loop 1 invariant [C12.logsKept] forall id uuid.UUID :: (id in r.jobsByID) && idRoundTrips(id) ==> $logsRemoved[uf1(1, id)] == old($logsRemoved[uf1(1, id)])
 //@   loop 2 invariant [C12.order] forall a, b :: 0 <= a && a < b && b < len(sortedJobsInPipeline) ==> sortedJobsInPipeline[a].Created >= sortedJobsInPipeline[b].Created
 //@   loop 2 invariant [C12.period] $clock >= old($clock) && forall k :: 0 <= k && k <= $i && jobFinished(sortedJobsInPipeline[k]) && defined(r, sortedJobsInPipeline[k].Pipeline) && retPeriod(r, sortedJobsInPipeline[k]) > 0 && (sortedJobsInPipeline[k].ID in r.jobsByID) ==> old($clock) - sortedJobsInPipeline[k].Created <= retPeriod(r, sortedJobsInPipeline[k])
 //@   loop 2 invariant [C12.why] forall k :: 0 <= k && k <= $i && jobFinished(sortedJobsInPipeline[k]) && defined(r, sortedJobsInPipeline[k].Pipeline) && $passDom[sortedJobsInPipeline[k].ID] && !(sortedJobsInPipeline[k].ID in r.jobsByID) ==> (retCount(r, sortedJobsInPipeline[k]) > 0 && k >= retCount(r, sortedJobsInPipeline[k])) || (retPeriod(r, sortedJobsInPipeline[k]) > 0 && $clock - sortedJobsInPipeline[k].Created > retPeriod(r, sortedJobsInPipeline[k]))
@@ -521,7 +528,7 @@ package prunner
 //@   lockmode none
 //@   ensures  [T] Tjobs()
 //@   ensures  [gate] old(r.isShuttingDown) ==> r.isShuttingDown
-//@   modifies map(map[uuid.UUID]*PipelineJob), map(map[string][]*PipelineJob), mem(*PipelineJob), $clock, $logsRemoved, $savedData, $wgWaited, $wgTokens
+//@   modifies map(map[uuid.UUID]*PipelineJob), map(map[string][]*PipelineJob), mem(*PipelineJob), $clock, $logsRemoved, $logsRemoveFailed, $savedData, $wgWaited, $wgTokens
 //@   at call (*PipelineRunner).SaveToStore#1: assert [C11.finalSave] $wgWaited
 
 //@ func buildJobFromPersistedJob
